@@ -138,7 +138,13 @@ def check_consumers(e):
         f"r = ({e})\nprint(repr(r))\n",
     ]
     try:
-        top = type(ast.parse(e, mode="eval").body).__name__
+        tree_e = ast.parse(e, mode="eval").body
+        top = type(tree_e).__name__
+        # an and/or whose VALUE is used: operand of an arithmetic / comparison operator, call argument, subscript, ...
+        value_used_boolop = any(isinstance(c, ast.BoolOp) for n in ast.walk(tree_e) if not isinstance(n, (ast.BoolOp,)) and not (isinstance(n, ast.UnaryOp) and isinstance(n.op, ast.Not))
+                                for c in ast.iter_child_nodes(n))
+        eq_singleton = any(isinstance(n, ast.Compare) and any(isinstance(o, (ast.Eq, ast.NotEq)) for o in n.ops)
+                           and any(isinstance(c, ast.Constant) and (c.value is True or c.value is False) for c in [n.left] + n.comparators) for n in ast.walk(tree_e))
     except SyntaxError:
         return []
     for k_, prog in enumerate(progs):
@@ -147,8 +153,10 @@ def check_consumers(e):
         except SyntaxError:
             continue
         # and/or with constant operands used for its VALUE (not its truth): separate failure class (known finding F-15b)
-        ctx = ":value-context-boolop" if (k_ == 3 and top == "BoolOp") else ""
+        ctx = ":value-context-boolop" if ((k_ == 3 and top == "BoolOp") or value_used_boolop) else ""
         want = run_prog(prog)
+        if want[0] != "ok":
+            continue        # the original program raises: outside the class of programs whose behaviour must be kept (removing the exception of an ill-typed operand is allowed)
         for cn in CONSUMERS:
             try:
                 if cn == "format_code":
@@ -163,7 +171,12 @@ def check_consumers(e):
                 continue
             got = run_prog(out)
             if got != want:
-                fails.append({"cls": f"{cn}:behaviour{ctx}", "what": f"{cn}: condition {e!r}: program printed {want} before and {got} after", "output": out, "prog": prog})
+                ctx2 = ctx
+                if cn == "format_code" and (" in set()" in out or " in {" in out) and " in set()" not in prog and " in {" not in prog:
+                    ctx2 = ":contains-rewritten-to-set"       # performance.optimize_contains_types, not constant evaluation (known finding F-02a)
+                elif cn == "format_code" and eq_singleton and " is " not in prog:
+                    ctx2 = ":singleton-eq-rewritten-to-is"    # fixes.singleton_eq_comparison, not constant evaluation (known finding F-02b)
+                fails.append({"cls": f"{cn}:behaviour{ctx2}", "what": f"{cn}: condition {e!r}: program printed {want} before and {got} after", "output": out, "prog": prog})
     return fails
 
 
@@ -184,7 +197,7 @@ def _w2(e):
 def run(tier, seed):
     exprs, n_exh = expressions(tier, seed)
     rnd = random.Random(seed + 7)
-    cons = [e for e in exprs if not any(x in e for x in ("input", "exit", "9 ** 9", "<< 100000"))]
+    cons = [e for e in exprs if not any(x in e for x in ("input", "exit", "9 ** 9", "<< 100000", "id(", "hash("))]      # id / hash: nondeterministic programs
     cons = rnd.sample(cons, min(len(cons), 700 if tier == "quick" else 8000))
     ctx = mp.get_context("fork")
     with ctx.Pool(16, maxtasksperchild=400) as pool:
